@@ -232,6 +232,10 @@ func (a *attributeQuery) Select(t iterator) NodeNavigator {
 				return nil
 			}
 			node = node.Copy()
+			if node.NodeType() == AttributeNode {
+				// An attribute node has no attributes of its own.
+				continue
+			}
 			a.iterator = func() NodeNavigator {
 				for {
 					onAttr := node.MoveToNextAttribute()
